@@ -146,6 +146,8 @@ def check_log_file(ctx):
 
 
 def check(ctx):
+    from . import c02 as _c02
+    _c02.check_env_read(ctx)      # replay sees the whole log
     wal.check_torn_tail(ctx)
     wal.check_reassembly(ctx)
     check_expected(ctx)
